@@ -32,12 +32,13 @@ def seeded_table():
             continue
         log = open(os.path.join(d, "verify.log")).read() if os.path.exists(os.path.join(d, "verify.log")) else ""
         runs = re.findall(r"check (C\d+) exit=(\d+) (\d+) violation", log)
-        first = [r for r in runs if r[0] == sid][:1]
-        last = [r for r in runs if r[0] == sid][-1:]
-        others = sorted(set(r[0] for r in runs if r[0] != sid and r[1] == "1"))
+        cid = sid[:3]
+        first = [r for r in runs if r[0] == cid][:1]
+        last = [r for r in runs if r[0] == cid][-1:]
+        others = sorted(set(r[0] for r in runs if r[0] != cid and r[1] == "1"))
         fr = "caught" if first and first[0][1] == "1" else ("missed" if first else "-")
         lr = "caught" if last and last[0][1] == "1" else ("missed" if last else "-")
-        if len([r for r in runs if r[0] == sid]) < 2:
+        if len([r for r in runs if r[0] == cid]) < 2:
             lr = "(not needed)" if fr == "caught" else lr
         if others:
             lr += "; also caught by " + ",".join(others)
